@@ -246,6 +246,60 @@ def system_multi(R, rng, tier):
     shutil.rmtree(d, ignore_errors=True)
 
 
+def identity_details(R, rng, tier):
+    """Identities that differ in one field only inside one file, and file names with unusual characters."""
+    import shutil
+    d = os.path.join(impl.scratch(), "c07i")
+    shutil.rmtree(d, ignore_errors=True)
+    os.makedirs(os.path.join(d, "proj"))
+    # the same test and message with two confidences (B608: MEDIUM inside execute(), LOW elsewhere)
+    one = "cur.execute('select * from t where a=%s' % x)\nq = 'select * from t where a=%s' % y\n"
+    f = os.path.join(d, "proj", "sql.py")
+    basef = os.path.join(d, "base.json")
+    open(f, "w").write(one)
+    climain.run_main(["-q", "-f", "json", "-o", basef, f])
+    open(f, "w").write(one + "pad = 1\n" + one)
+    r = climain.run_main(["-q", "-b", basef, "-f", "json", f])
+    R.case(("identity", "confidence-variants"), nontrivial=True, sample={"exit": r["exit"], "exception": r["exception"]})
+    R.count("identity-details")
+    if r["exception"]:
+        R.violations.append({"what": "scan with baseline ends in a traceback (%s)" % r["exception"], "input": one, "observed": (r["traceback"] or "")[-300:], "signature": None})
+    else:
+        rep = json.loads(r["stdout"])["results"]
+        for x in rep:
+            cands = x.get("candidates") or []
+            bad = [c for c in cands if (c["test_id"], c["issue_severity"], c["issue_confidence"], c["issue_text"], c["filename"]) !=
+                   (x["test_id"], x["issue_severity"], x["issue_confidence"], x["issue_text"], x["filename"])]
+            occ = 2
+            if bad or (cands and len(cands) != occ):
+                R.violations.append({"what": "finding %s (%s/%s, line %d) is reported with candidates that are not its own occurrences" % (
+                    x["test_id"], x["issue_severity"], x["issue_confidence"], x["line_number"]), "input": {"before": one, "after": "twice"},
+                    "observed": [(c["issue_confidence"], c["line_number"]) for c in cands], "signature": None})
+        if sorted((x["test_id"], x["issue_confidence"]) for x in rep) != [("B608", "LOW"), ("B608", "MEDIUM")]:
+            R.violations.append({"what": "two identities that differ in confidence only, each duplicated: reported %s" % sorted((x["test_id"], x["issue_confidence"]) for x in rep),
+                                 "input": {"before": one}, "observed": len(rep), "signature": None})
+    # unchanged files with unusual names, rescanned against their own report
+    names = ["pkg\\mod.py", "sp ace.py", "ünï.py", "semi;colon.py", "quote'd.py", "dash-.py"]
+    pd = os.path.join(d, "names")
+    os.makedirs(pd)
+    for n in names:
+        open(os.path.join(pd, n), "w").write("assert zz\nexec(zz)\n")
+    for agg in ("file", "vuln"):
+        basef2 = os.path.join(d, "base2.json")
+        if os.path.exists(basef2):
+            os.remove(basef2)
+        climain.run_main(["-q", "-r", "-f", "json", "-a", agg, "-o", basef2, "names"], cwd=d)
+        r = climain.run_main(["-q", "-r", "-b", basef2, "-f", "json", "names"], cwd=d)
+        R.case(("identity", "names", agg), nontrivial=True, sample={"exit": r["exit"]})
+        R.count("identity-details")
+        if r["exception"] or r["exit"] != 0 or json.loads(r["stdout"])["results"]:
+            R.violations.append({"what": "unchanged files with unusual names rescanned against their own report: %s" % (
+                r["exception"] or "exit %s, %d findings reported" % (r["exit"], len(json.loads(r["stdout"])["results"]))),
+                "input": {"names": names, "aggregation": agg},
+                "observed": None if r["exception"] else [(x["filename"], x["test_id"]) for x in json.loads(r["stdout"])["results"]][:6], "signature": None})
+    shutil.rmtree(d, ignore_errors=True)
+
+
 def run(R, replay=None):
     rng = random.Random(R.seed)
     for f in core.gen():
@@ -261,4 +315,5 @@ def run(R, replay=None):
     unit(R, rng, R.tier)
     system(R, rng, R.tier)
     system_multi(R, rng, R.tier)
+    identity_details(R, rng, R.tier)
     R.disagreements_checked = R.evaluations
